@@ -212,8 +212,12 @@ type anMeta struct {
 	name string
 }
 
+// metadata classes.  m1 is the reference; m1d / m1s / m1n differ from it in EXACTLY ONE field (decimals / symbol / name),
+// m2 in all three, m3 = m1n; "badchain" (payload only) is m1 with another token chain id; malphd / malphn differ from the
+// native token's constant metadata in decimals / name only.
 var anMetas = map[string]anMeta{"m1": {8, "TKA", "Token A"}, "m2": {9, "TKB", "Token B"}, "m3": {8, "TKA", "Token B"},
-	"malph": {18, "ALPH", "Alephium"}}
+	"m1d": {18, "TKA", "Token A"}, "m1s": {8, "TKB", "Token A"}, "m1n": {8, "TKA", "Token B"}, "badchain": {8, "TKA", "Token A"},
+	"malph": {18, "ALPH", "Alephium"}, "malphd": {8, "ALPH", "Alephium"}, "malphn": {18, "ALPH", "Alephium Coin"}}
 
 func anPad32(s string) []byte {
 	b := make([]byte, 32)
@@ -238,7 +242,11 @@ func (nd *anNode) payload(e *anEvent) []byte {
 		tid := anTokID(e.Tok)
 		p := []byte{2}
 		p = append(p, tid[:]...)
-		p = append(p, 0x00, 0xff, byte(m.dec))
+		if e.Claim == "badchain" {
+			p = append(p, 0x00, 0x02, byte(m.dec)) // token chain id is not Alephium's
+		} else {
+			p = append(p, 0x00, 0xff, byte(m.dec))
+		}
 		p = append(p, anPad32(m.sym)...)
 		p = append(p, anPad32(m.name)...)
 		return p
